@@ -4,7 +4,9 @@ C02 — Emitted packets and header codecs conform to the ETSI wire formats
 
 Model: `FlexModel/Wire/{Bits,Headers,Packet}.lean` (the Python codecs and packet assembly after the C02 fixes).
 Spec:  `FlexModel/Wire/Spec.lean` — the standard's layouts as data and ONE generic `pack`/`unpack`;
-       `Spec.octets l vs` = the octets the standard prescribes for field values `vs`.
+       `Spec.octets l vs` = the octets the standard prescribes for field values `vs`;
+       `FlexModel/Geo/LTSpec.lean` — which LT octet and which hop limit the standard prescribes (no model function in it).
+The right-hand sides of the packet theorems (§6) are built from Spec definitions only.
 `fields`/`WF` per header: `FlexModel/Wire/Fields.lean`.  Helper lemmas: `Wire/*Lemmas*.lean`.
 All statements are for every field value within its width (no sampling, no size bound).
 -/
@@ -12,7 +14,7 @@ import FlexModel.Wire.PacketLemmas
 
 namespace Props.C02
 open FlexModel.Wire FlexModel.Wire.Spec Generated.WireEnums
-open FlexModel.Geo (LT srcLifetime)
+open FlexModel.Geo
 
 /-! ## 0. The standard's codec is self-consistent; the code's enum tables are the standard's code points -/
 
@@ -127,6 +129,48 @@ theorem common_decode_errors (v : Nat) :
     have hm2 : (v >>> 52 &&& 15) ∈ HeaderType_values := by rw [tables.2.2.1]; exact h2
     have hm3 : (v >>> 48 &&& 15) ∉ hstCodes (v >>> 52 &&& 15) := by rw [tables.2.2.2.2.2.2.2 _ h2]; exact h3
     simp [CommonHeader.decodeInt, enum?, hm1, hm2, hm3, bind, Except.bind]
+
+private theorem b2n_mod2 (x : Nat) : b2n (x % 2 == 1) = x % 2 := by
+  have : x % 2 = 0 ∨ x % 2 = 1 := by omega
+  rcases this with h | h <;> simp [h, b2n]
+
+/-- for EVERY 64-bit input (conformant or not): the ten values the decoder returns are what the standard's `unpack` reads
+at NH, HT, HST, SCF, channel offload, TC ID, mobile flag, PL, MHL and the TRAILING reserved octet.  The other two fields
+of the layout — the 4 reserved bits after NH (index 1) and the 7 reserved flag bits (index 8) — are not returned at all
+(`flags` keeps bit 0 only), and the class has a single `reserved` attribute for two reserved fields. -/
+theorem common_decode_reads_layout (v : Nat) (h : CommonHeader) (hd : CommonHeader.decodeInt v = .ok h) :
+    let u := unpack commonHeader v
+    ([(h.nh : Int), h.ht, h.hst, b2n h.tc.scf, b2n h.tc.channelOffload, h.tc.tcId, ((h.flags / 128 : Nat) : Int), h.pl, h.mhl,
+      h.reserved] = [u.getD 0 0, u.getD 2 0, u.getD 3 0, u.getD 4 0, u.getD 5 0, u.getD 6 0, u.getD 7 0, u.getD 9 0,
+      u.getD 10 0, u.getD 11 0]) ∧ h.flags % 128 = 0 := by
+  simp only [CommonHeader.decodeInt, bind, Except.bind, pure, Except.pure] at hd
+  split at hd
+  · cases hd
+  · rename_i nh hnh
+    split at hd
+    · cases hd
+    · rename_i ht hht
+      split at hd
+      · cases hd
+      · rename_i hst hhst
+        injection hd with hd
+        subst hd
+        obtain ⟨rfl, _⟩ := enum?_ok hnh
+        obtain ⟨rfl, _⟩ := enum?_ok hht
+        obtain ⟨rfl, _⟩ := enum?_ok hhst
+        simp only [TrafficClass.decodeInt, unpack, unpackRev, commonHeader, decField, List.reverse_cons,
+          List.reverse_nil, List.nil_append, List.cons_append, and_15, and_255, and_63, and_1, and_65535, and_128,
+          Nat.shiftRight_eq_div_pow]
+        simp [b2n_mod2]
+        omega
+
+/-- the asymmetry made concrete (NON-conformant input, outside the property; recorded because a forwarder re-encodes
+what it decoded): the trailing reserved octet 0x35 of a received header is copied by `encode` into the 4 reserved bits
+after NH as well — and, being wider than 4 bits, spills into NH (0x2… becomes 0x3…) -/
+theorem common_reserved_asymmetry_witness :
+    ∃ h, CommonHeader.decodeInt 0x2050008000000135 = .ok h ∧ h.encodeInt = 0x3550008000000135 := by
+  refine ⟨_, rfl, ?_⟩
+  decide +kernel
 
 /-! ## 3. GN address -/
 
@@ -313,21 +357,35 @@ theorem btp_wrap (h : BTPHeader) (wf : h.WF) (payload : Bytes) :
 
 
 /-! ## 6. Packet assembly at origination: octet for octet the packet the standard prescribes
-(`Spec.basicValues` / `Spec.commonValues`: field settings of EN 302 636-4-1 clause 10.3; LT value: C20).
-`v.versionFromMib`/`v.beaconFlagFixed` = the repaired variants of known findings C02-KF2 / C02-KF1. -/
+(`Spec.basicValues` / `Spec.commonValues`: field settings of EN 302 636-4-1 clause 10.3).
+
+The right-hand sides are SPEC only — no function of the implementation model occurs in them:
+* hop limit: `LTSpec.hopLimit (LTSpec.requestedHops r.maxHopLimit) mib.defaultHopLimit` (requested if specified, else
+  itsGnDefaultHopLimit; `requestedHops` = the stated interface convention "0 and 1 mean not specified");
+* traffic class of beacon / LS packets: `Spec.tcOfOctet itsGnDefaultTrafficClass` (div/mod reading of the octet);
+* lifetime: SOME octet `lt` with `LTSpec.IsLifetimeOctet (LTSpec.lifetimeMs …) lt` (does not exceed the requested / default
+  lifetime, and no representable lifetime that does not exceed it is larger) — the standard fixes the value, not the pair.
+Hypotheses that select the variant of the code:
+* `hv : v.versionFromMib = true ∨ mib.version = 1` — the repaired variant of C02-KF2 OR the code as it is (version
+  hard-coded 1) under itsGnProtocolVersion = 1, the MIB default: the theorems DO apply to the code as it is;
+* `hk : v.capped = false ∨ lifetime < 1 000 000 ms` — outside known finding C20-KF1;
+* `v.beaconFlagFixed` — C02-KF1 (beacon only). -/
 
 /-- SHB (`gn_data_request_shb`): RHL = MHL = 1, PL = payload length, SO PV = ego PV, 4 reserved octets -/
-theorem shb_conforms (v : Variant) (hv : v.versionFromMib = true) (mib : Mib) (hm : mib.WF) (r : Request) (hr : r.WF)
+theorem shb_conforms (v : Variant) (mib : Mib) (hv : v.versionFromMib = true ∨ mib.version = 1) (hm : mib.WF)
+    (r : Request) (hr : r.WF) (hk : v.capped = false ∨ LTSpec.lifetimeMs r.lifetimeMs mib.defaultLifetimeS < 1000000)
     (hshb : r.ht = HeaderType_TSB ∧ r.hst = TopoBroadcastHST_SINGLE_HOP) (ego : LongPV) (he : ego.WF) :
+    ∃ lt, LTSpec.IsLifetimeOctet (LTSpec.lifetimeMs r.lifetimeMs mib.defaultLifetimeS) lt ∧
     shbPacket v mib r ego = .ok (
-      octets basicHeader (basicValues mib.version (srcLifetime v.capped r.lifetimeMs mib.defaultLifetimeS) 1) ++
+      octets basicHeader (basicValues mib.version lt 1) ++
       octets commonHeader (commonValues r.nh 5 0 r.tc mib.mobile r.data.length 1) ++
       octets shb (ego.fields ++ [0]) ++ r.data) := by
+  refine ⟨_, LTLemmas.src_lifetime_meets_spec v.capped r.lifetimeMs mib.defaultLifetimeS hk, ?_⟩
   have wb := srcBasic_wf v mib hm r.lifetimeMs 1 (by omega)
   have wc := commonOfRequest_wf r hr mib hm
   unfold shbPacket
   rw [cat3_ok (BasicHeader.encode_eq _ wb) (CommonHeader.encode_eq _ wc) (LongPV.encode_ok ego he),
-    srcBasic_fields v hv, commonOfRequest_fields r mib hm, octets_shb ego he]
+    srcBasic_fields v mib hv, commonOfRequest_fields r mib hm, octets_shb ego he]
   have h5 : r.length = r.data.length := hr.2.2.2.2.1
   simp only [hshb.1, hshb.2, h5, and_self, if_true, HeaderType_TSB, TopoBroadcastHST_SINGLE_HOP, List.append_assoc]
 
@@ -342,16 +400,21 @@ private theorem req_hop_wf (mib : Mib) (hm : mib.WF) (r : Request) (hr : r.WF) :
   obtain ⟨r1, r2, r3, r4, r5, r6, r7, _⟩ := hr
   exact ⟨r1, r2, r3, r4, r5, r6, r7, srcHopLimit_lt mib hm r ⟨r1, r2, r3, r4, r5, r6, r7, by assumption⟩⟩
 
-/-- GBC and GAC (`gn_data_request_gbc`): RHL = MHL = requested hop limit (> 1) or itsGnDefaultHopLimit,
+/-- GBC and GAC (`gn_data_request_gbc`): RHL = MHL = requested hop limit if specified, else itsGnDefaultHopLimit,
 SN, reserved 0, SO PV = ego PV, area centre/a/b/angle of the request, reserved 0 -/
-theorem gbc_conforms (v : Variant) (hv : v.versionFromMib = true) (mib : Mib) (hm : mib.WF) (r : Request) (hr : r.WF)
+theorem gbc_conforms (v : Variant) (mib : Mib) (hv : v.versionFromMib = true ∨ mib.version = 1) (hm : mib.WF)
+    (r : Request) (hr : r.WF) (hk : v.capped = false ∨ LTSpec.lifetimeMs r.lifetimeMs mib.defaultLifetimeS < 1000000)
     (hht : r.ht = HeaderType_GEOBROADCAST ∨ r.ht = HeaderType_GEOANYCAST) (sn : Nat) (hsn : sn < 65536)
     (ego : LongPV) (he : ego.WF) :
+    ∃ lt, LTSpec.IsLifetimeOctet (LTSpec.lifetimeMs r.lifetimeMs mib.defaultLifetimeS) lt ∧
     gbcPacket v mib r sn ego = .ok (
-      octets basicHeader (basicValues mib.version (srcLifetime v.capped r.lifetimeMs mib.defaultLifetimeS) (srcHopLimit mib r)) ++
-      octets commonHeader (commonValues r.nh r.ht r.hst r.tc mib.mobile r.data.length (srcHopLimit mib r) ) ++
+      octets basicHeader (basicValues mib.version lt (LTSpec.hopLimit (LTSpec.requestedHops r.maxHopLimit) mib.defaultHopLimit)) ++
+      octets commonHeader (commonValues r.nh r.ht r.hst r.tc mib.mobile r.data.length
+        (LTSpec.hopLimit (LTSpec.requestedHops r.maxHopLimit) mib.defaultHopLimit)) ++
       octets gbc ([(sn : Int), 0] ++ ego.fields ++ [r.area.lat, r.area.lon, (r.area.a : Int), (r.area.b : Int), (r.area.angle : Int), 0]) ++
       r.data) := by
+  refine ⟨_, LTLemmas.src_lifetime_meets_spec v.capped r.lifetimeMs mib.defaultLifetimeS hk, ?_⟩
+  rw [← srcHopLimit_eq]
   have hh := srcHopLimit_lt mib hm r hr
   have wb := srcBasic_wf v mib hm r.lifetimeMs _ hh
   have hr' := req_hop_wf mib hm r hr
@@ -363,18 +426,23 @@ theorem gbc_conforms (v : Variant) (hv : v.versionFromMib = true) (mib : Mib) (h
     rcases hht with h | h <;> simp [h, HeaderType_TSB, HeaderType_GEOBROADCAST, HeaderType_GEOANYCAST]
   unfold gbcPacket
   rw [cat3_ok (BasicHeader.encode_eq _ wb) (CommonHeader.encode_eq _ wc) (gbc_encode_conforms _ we),
-    srcBasic_fields v hv, commonOfRequest_fields _ mib hm]
+    srcBasic_fields v mib hv, commonOfRequest_fields _ mib hm]
   have h5 : r.length = r.data.length := hr.2.2.2.2.1
   simp only [nshb, if_false, h5, GBCExt.fields, Int.natCast_zero]
 
 /-- GUC (`gn_data_request_guc` with a location-table entry): DE PV = short PV of the destination's entry -/
-theorem guc_conforms (v : Variant) (hv : v.versionFromMib = true) (mib : Mib) (hm : mib.WF) (r : Request) (hr : r.WF)
+theorem guc_conforms (v : Variant) (mib : Mib) (hv : v.versionFromMib = true ∨ mib.version = 1) (hm : mib.WF)
+    (r : Request) (hr : r.WF) (hk : v.capped = false ∨ LTSpec.lifetimeMs r.lifetimeMs mib.defaultLifetimeS < 1000000)
     (hht : r.ht = HeaderType_GEOUNICAST) (sn : Nat) (hsn : sn < 65536) (ego : LongPV) (he : ego.WF)
     (de : ShortPV) (hde : de.WF) :
+    ∃ lt, LTSpec.IsLifetimeOctet (LTSpec.lifetimeMs r.lifetimeMs mib.defaultLifetimeS) lt ∧
     gucPacket v mib r sn ego de = .ok (
-      octets basicHeader (basicValues mib.version (srcLifetime v.capped r.lifetimeMs mib.defaultLifetimeS) (srcHopLimit mib r)) ++
-      octets commonHeader (commonValues r.nh 2 r.hst r.tc mib.mobile r.data.length (srcHopLimit mib r)) ++
+      octets basicHeader (basicValues mib.version lt (LTSpec.hopLimit (LTSpec.requestedHops r.maxHopLimit) mib.defaultHopLimit)) ++
+      octets commonHeader (commonValues r.nh 2 r.hst r.tc mib.mobile r.data.length
+        (LTSpec.hopLimit (LTSpec.requestedHops r.maxHopLimit) mib.defaultHopLimit)) ++
       octets guc ([(sn : Int), 0] ++ ego.fields ++ de.fields) ++ r.data) := by
+  refine ⟨_, LTLemmas.src_lifetime_meets_spec v.capped r.lifetimeMs mib.defaultLifetimeS hk, ?_⟩
+  rw [← srcHopLimit_eq]
   have hh := srcHopLimit_lt mib hm r hr
   have wb := srcBasic_wf v mib hm r.lifetimeMs _ hh
   have hr' := req_hop_wf mib hm r hr
@@ -384,52 +452,134 @@ theorem guc_conforms (v : Variant) (hv : v.versionFromMib = true) (mib : Mib) (h
     simp [hht, HeaderType_TSB, HeaderType_GEOUNICAST]
   unfold gucPacket
   rw [cat3_ok (BasicHeader.encode_eq _ wb) (CommonHeader.encode_eq _ wc) (guc_encode_conforms _ we),
-    srcBasic_fields v hv, commonOfRequest_fields _ mib hm]
+    srcBasic_fields v mib hv, commonOfRequest_fields _ mib hm]
   have h5 : r.length = r.data.length := hr.2.2.2.2.1
   simp [h5, hht, HeaderType_GEOUNICAST, HeaderType_TSB, GUCExt.fields]
 
-/-- LS request (`_send_ls_request_packet`): NH = ANY, HT/HST = LS/request, TC = itsGnDefaultTrafficClass, PL 0, RHL = MHL = itsGnDefaultHopLimit -/
-theorem ls_request_conforms (v : Variant) (hv : v.versionFromMib = true) (mib : Mib) (hm : mib.WF) (sn : Nat) (hsn : sn < 65536)
+/-- LS request (`_send_ls_request_packet`): NH = ANY, HT/HST = LS/request, TC = itsGnDefaultTrafficClass, PL 0,
+RHL = MHL = itsGnDefaultHopLimit, LT = itsGnDefaultPacketLifetime -/
+theorem ls_request_conforms (v : Variant) (mib : Mib) (hv : v.versionFromMib = true ∨ mib.version = 1) (hm : mib.WF)
+    (hk : v.capped = false ∨ LTSpec.lifetimeMs none mib.defaultLifetimeS < 1000000) (sn : Nat) (hsn : sn < 65536)
     (ego : LongPV) (he : ego.WF) (sought : GNAddr) (hs : sought.WF) :
+    ∃ lt, LTSpec.IsLifetimeOctet (LTSpec.lifetimeMs none mib.defaultLifetimeS) lt ∧
     lsRequestPacket v mib sn ego sought = .ok (
-      octets basicHeader (basicValues mib.version (srcLifetime v.capped none mib.defaultLifetimeS) mib.defaultHopLimit) ++
-      octets commonHeader (commonValues 0 6 0 (TrafficClass.decodeInt mib.defaultTc) mib.mobile 0 mib.defaultHopLimit) ++
+      octets basicHeader (basicValues mib.version lt mib.defaultHopLimit) ++
+      octets commonHeader (commonValues 0 6 0 (tcOfOctet mib.defaultTc) mib.mobile 0 mib.defaultHopLimit) ++
       octets lsRequest ([(sn : Int), 0] ++ ego.fields ++ sought.fields)) := by
+  refine ⟨_, LTLemmas.src_lifetime_meets_spec v.capped none mib.defaultLifetimeS hk, ?_⟩
+  rw [← tcDecode_eq_spec _ hm.2.2.2]
   have wb := srcBasic_wf v mib hm none _ hm.2.2.1
   have wc := commonLS_wf mib hm LocationServiceHST_LS_REQUEST (by decide)
   have we : LSReqExt.WF (⟨sn, 0, ego, sought⟩ : LSReqExt) := ⟨hsn, by simp, he, hs⟩
   unfold lsRequestPacket
   rw [cat3_ok (BasicHeader.encode_eq _ wb) (CommonHeader.encode_eq _ wc) (lsrequest_encode_conforms _ we),
-    srcBasic_fields v hv, commonLS_fields mib hm]
+    srcBasic_fields v mib hv, commonLS_fields mib hm]
   simp only [LSReqExt.fields, LocationServiceHST_LS_REQUEST, Int.natCast_zero, List.append_nil]
 
 /-- LS reply (`gn_data_indicate_ls_request`): HST = reply, DE PV = short PV of the requester -/
-theorem ls_reply_conforms (v : Variant) (hv : v.versionFromMib = true) (mib : Mib) (hm : mib.WF) (sn : Nat) (hsn : sn < 65536)
+theorem ls_reply_conforms (v : Variant) (mib : Mib) (hv : v.versionFromMib = true ∨ mib.version = 1) (hm : mib.WF)
+    (hk : v.capped = false ∨ LTSpec.lifetimeMs none mib.defaultLifetimeS < 1000000) (sn : Nat) (hsn : sn < 65536)
     (ego : LongPV) (he : ego.WF) (de : ShortPV) (hde : de.WF) :
+    ∃ lt, LTSpec.IsLifetimeOctet (LTSpec.lifetimeMs none mib.defaultLifetimeS) lt ∧
     lsReplyPacket v mib sn ego de = .ok (
-      octets basicHeader (basicValues mib.version (srcLifetime v.capped none mib.defaultLifetimeS) mib.defaultHopLimit) ++
-      octets commonHeader (commonValues 0 6 1 (TrafficClass.decodeInt mib.defaultTc) mib.mobile 0 mib.defaultHopLimit) ++
+      octets basicHeader (basicValues mib.version lt mib.defaultHopLimit) ++
+      octets commonHeader (commonValues 0 6 1 (tcOfOctet mib.defaultTc) mib.mobile 0 mib.defaultHopLimit) ++
       octets lsReply ([(sn : Int), 0] ++ ego.fields ++ de.fields)) := by
+  refine ⟨_, LTLemmas.src_lifetime_meets_spec v.capped none mib.defaultLifetimeS hk, ?_⟩
+  rw [← tcDecode_eq_spec _ hm.2.2.2]
   have wb := srcBasic_wf v mib hm none _ hm.2.2.1
   have wc := commonLS_wf mib hm LocationServiceHST_LS_REPLY (by decide)
   have we : GUCExt.WF (⟨sn, 0, ego, de⟩ : GUCExt) := ⟨hsn, by simp, he, hde⟩
   unfold lsReplyPacket
   rw [cat3_ok (BasicHeader.encode_eq _ wb) (CommonHeader.encode_eq _ wc) (lsreply_encode_conforms _ we),
-    srcBasic_fields v hv, commonLS_fields mib hm]
+    srcBasic_fields v mib hv, commonLS_fields mib hm]
   simp only [GUCExt.fields, LocationServiceHST_LS_REPLY, Int.natCast_zero, List.append_nil]
 
-/-- Beacon (`gn_data_request_beacon`), for the repaired variant of `initialize_beacon` -/
-theorem beacon_conforms (v : Variant) (hv : v.versionFromMib = true) (hb : v.beaconFlagFixed = true) (mib : Mib) (hm : mib.WF)
-    (ego : LongPV) (he : ego.WF) :
+/-- Beacon (`gn_data_request_beacon`): for the repaired `initialize_beacon` (C02-KF1), and for the code as it is when the
+station is stationary (`itsGnIsMobile = 0`), where the misplaced flag bit is 0 either way -/
+theorem beacon_conforms (v : Variant) (mib : Mib) (hv : v.versionFromMib = true ∨ mib.version = 1) (hm : mib.WF)
+    (hb : v.beaconFlagFixed = true ∨ mib.mobile = 0)
+    (hk : v.capped = false ∨ LTSpec.lifetimeMs none mib.defaultLifetimeS < 1000000) (ego : LongPV) (he : ego.WF) :
+    ∃ lt, LTSpec.IsLifetimeOctet (LTSpec.lifetimeMs none mib.defaultLifetimeS) lt ∧
     beaconPacket v mib ego = .ok (
-      octets basicHeader (basicValues mib.version (srcLifetime v.capped none mib.defaultLifetimeS) 1) ++
-      octets commonHeader (commonValues 0 1 0 (TrafficClass.decodeInt mib.defaultTc) mib.mobile 0 1) ++ octets beacon ego.fields) := by
+      octets basicHeader (basicValues mib.version lt 1) ++
+      octets commonHeader (commonValues 0 1 0 (tcOfOctet mib.defaultTc) mib.mobile 0 1) ++ octets beacon ego.fields) := by
+  refine ⟨_, LTLemmas.src_lifetime_meets_spec v.capped none mib.defaultLifetimeS hk, ?_⟩
+  rw [← tcDecode_eq_spec _ hm.2.2.2]
   have wb := srcBasic_wf v mib hm none 1 (by omega)
   have wc := commonBeacon_wf v mib hm
   unfold beaconPacket
   rw [cat3_ok (BasicHeader.encode_eq _ wb) (CommonHeader.encode_eq _ wc) (lpv_encode_conforms ego he),
-    srcBasic_fields v hv, commonBeacon_fields v hb mib hm]
-  simp only [beacon, List.append_nil]
+    srcBasic_fields v mib hv]
+  cases hf : v.beaconFlagFixed with
+  | true =>
+    rw [commonBeacon_fields v hf mib hm]
+    simp only [beacon, List.append_nil]
+  | false =>
+    have h0 : mib.mobile = 0 := by rcases hb with h | h; · rw [hf] at h; cases h
+                                   · exact h
+    simp [commonBeacon, hf, h0, CommonHeader.fields, TrafficClass.fields, commonValues, CommonNH_ANY, HeaderType_BEACON,
+      HeaderSubType_UNSPECIFIED, beacon]
+
+/-- non-vacuity of the variant hypotheses: THE CODE AS IT IS (capped, beacon flag not repaired, version hard-coded:
+`Variant ⟨true, false, false⟩`) with the default MIB (version 1, default lifetime 60 s) satisfies `hv` and `hk`; a
+stationary station also satisfies `hb` -/
+example : let v : Variant := ⟨true, false, false⟩; let mib : Mib := ⟨1, 0, 10, 60, 0⟩
+    (v.versionFromMib = true ∨ mib.version = 1) ∧ (v.beaconFlagFixed = true ∨ mib.mobile = 0) ∧
+    (v.capped = false ∨ LTSpec.lifetimeMs none mib.defaultLifetimeS < 1000000) ∧
+    (v.capped = false ∨ LTSpec.lifetimeMs (some 999999) mib.defaultLifetimeS < 1000000) := by decide
+
+/-- **RHL = MHL on the wire, and both are the prescribed hop limit**: octet 3 (RHL) and octet 10 (MHL) of every
+request-built multi-hop packet; 1 and 1 for SHB — read off the emitted octets of the packet model -/
+theorem hop_octets (v : Variant) (mib : Mib) (hm : mib.WF) (r : Request) (hr : r.WF) (sn : Nat) (ego : LongPV) (de : ShortPV) :
+    (∀ bs, gbcPacket v mib r sn ego = .ok bs → (r.ht = HeaderType_GEOBROADCAST ∨ r.ht = HeaderType_GEOANYCAST) →
+      bs.getD 3 0 = LTSpec.hopLimit (LTSpec.requestedHops r.maxHopLimit) mib.defaultHopLimit ∧ bs.getD 10 0 = bs.getD 3 0) ∧
+    (∀ bs, gucPacket v mib r sn ego de = .ok bs → r.ht = HeaderType_GEOUNICAST →
+      bs.getD 3 0 = LTSpec.hopLimit (LTSpec.requestedHops r.maxHopLimit) mib.defaultHopLimit ∧ bs.getD 10 0 = bs.getD 3 0) ∧
+    (∀ bs, shbPacket v mib r ego = .ok bs → (r.ht = HeaderType_TSB ∧ r.hst = TopoBroadcastHST_SINGLE_HOP) →
+      bs.getD 3 0 = 1 ∧ bs.getD 10 0 = 1) := by
+  have hh := srcHopLimit_lt mib hm r hr
+  have hr' := req_hop_wf mib hm r hr
+  have key : ∀ (life : Option Nat) (rhl : Nat) (hrl : rhl < 256) (c : CommonHeader) (wc : c.WF) (x : Except Err Bytes) (t bs : Bytes),
+      cat3 (srcBasic v mib life rhl).encode c.encode x t = .ok bs → bs.getD 3 0 = rhl ∧ bs.getD 10 0 = c.mhl := by
+    intro life rhl hrl c wc x t bs h
+    have wb := srcBasic_wf v mib hm life rhl hrl
+    have e1 : (srcBasic v mib life rhl).encode = .ok (toBytesBE 4 (srcBasic v mib life rhl).encodeInt) :=
+      toBytes?_ok (BasicHeader.encodeInt_lt _ wb)
+    have e2 : c.encode = .ok (toBytesBE 8 c.encodeInt) := toBytes?_ok (CommonHeader.encodeInt_lt _ wc)
+    cases x with
+    | error e => simp [cat3, e1, e2, bind, Except.bind] at h
+    | ok z =>
+      rw [cat3_ok e1 e2 rfl] at h
+      injection h with h
+      subst h
+      have o1 : (toBytesBE 4 (srcBasic v mib life rhl).encodeInt).getD 3 0 = rhl := (BasicHeader.octets_at _ wb).2.2
+      have o2 := (CommonHeader.octets_at _ wc).2.2.2.1
+      constructor
+      · refine Eq.trans ?_ o1
+        simp only [List.getD_eq_getElem?_getD, List.append_assoc]
+        rw [List.getElem?_append_left (by simp [toBytesBE_length])]
+      · refine Eq.trans ?_ o2
+        simp only [List.getD_eq_getElem?_getD, List.append_assoc]
+        rw [List.getElem?_append_right (by simp [toBytesBE_length]), List.getElem?_append_left (by simp [toBytesBE_length])]
+        simp [toBytesBE_length]
+  refine ⟨?_, ?_, ?_⟩
+  · intro bs h hht
+    have nshb : ¬ (r.ht = HeaderType_TSB ∧ r.hst = TopoBroadcastHST_SINGLE_HOP) := by
+      rcases hht with h | h <;> simp [h, HeaderType_TSB, HeaderType_GEOBROADCAST, HeaderType_GEOANYCAST]
+    obtain ⟨k1, k2⟩ := key _ _ hh _ (commonOfRequest_wf _ hr' mib hm) _ _ bs h
+    rw [← srcHopLimit_eq, k1, k2]
+    simp [commonOfRequest, nshb]
+  · intro bs h hht
+    have nshb : ¬ (r.ht = HeaderType_TSB ∧ r.hst = TopoBroadcastHST_SINGLE_HOP) := by
+      simp [hht, HeaderType_TSB, HeaderType_GEOUNICAST]
+    obtain ⟨k1, k2⟩ := key _ _ hh _ (commonOfRequest_wf _ hr' mib hm) _ _ bs h
+    rw [← srcHopLimit_eq, k1, k2]
+    simp [commonOfRequest, nshb]
+  · intro bs h hshb
+    obtain ⟨k1, k2⟩ := key _ 1 (by omega) _ (commonOfRequest_wf r hr mib hm) _ _ bs h
+    rw [k1, k2]
+    simp [commonOfRequest, hshb.1, hshb.2]
 
 
 /-! ## 7. Corollaries named after the property text -/
@@ -472,28 +622,13 @@ theorem beacon_mobile_flag_witness :
     (toBytesBE 8 (commonBeacon ⟨true, true, false⟩ ⟨1, 1, 10, 60, 0⟩).encodeInt).getD 3 0 = 128 := by
   decide +kernel
 
-/-- everything else of the beacon conforms even for the code as it is: only the flags octet deviates -/
-theorem beacon_conforms_partial (v : Variant) (hv : v.versionFromMib = true) (mib : Mib) (hm : mib.WF)
-    (hstat : v.beaconFlagFixed = false → mib.mobile = 0) (ego : LongPV) (he : ego.WF) :
-    beaconPacket v mib ego = .ok (
-      octets basicHeader (basicValues mib.version (srcLifetime v.capped none mib.defaultLifetimeS) 1) ++
-      octets commonHeader (commonValues 0 1 0 (TrafficClass.decodeInt mib.defaultTc) mib.mobile 0 1) ++ octets beacon ego.fields) := by
-  cases hb : v.beaconFlagFixed with
-  | true => exact beacon_conforms v hv hb mib hm ego he
-  | false =>
-    have h0 := hstat hb
-    have wb := srcBasic_wf v mib hm none 1 (by omega)
-    have wc := commonBeacon_wf v mib hm
-    unfold beaconPacket
-    rw [cat3_ok (BasicHeader.encode_eq _ wb) (CommonHeader.encode_eq _ wc) (lpv_encode_conforms ego he), srcBasic_fields v hv]
-    simp [commonBeacon, hb, h0, CommonHeader.fields, TrafficClass.fields, commonValues, CommonNH_ANY, HeaderType_BEACON,
-      HeaderSubType_UNSPECIFIED, beacon]
-
-/-- the code as it is writes version 1 (known finding C02-KF2): conformance of the version nibble holds exactly when
-itsGnProtocolVersion = 1; witness for version 2 -/
-theorem version_partial (v : Variant) (hv : v.versionFromMib = false) (mib : Mib) (h1 : mib.version = 1) (life : Option Nat)
-    (rhl : Nat) : (srcBasic v mib life rhl).fields = basicValues mib.version (srcLifetime v.capped life mib.defaultLifetimeS) rhl := by
-  simp [srcBasic, BasicHeader.fields, basicValues, hv, h1, BasicNH_COMMON_HEADER]
+/-- C02-KF2 — the version nibble is itsGnProtocolVersion: for the repaired variant always, for the code as it is
+(version hard-coded 1) exactly when itsGnProtocolVersion = 1; witness for version 2 below -/
+theorem version_conforms (v : Variant) (mib : Mib) (hv : v.versionFromMib = true ∨ mib.version = 1) (life : Option Nat)
+    (rhl : Nat) : (srcBasic v mib life rhl).version = mib.version := by
+  rcases hv with h | h
+  · simp [srcBasic, h]
+  · simp only [srcBasic]; split <;> simp [h]
 
 theorem version_witness :
     (srcBasic ⟨true, false, false⟩ ⟨2, 1, 10, 60, 0⟩ none 1).version = 1 ∧
@@ -534,13 +669,20 @@ theorem reserved_zero (v : Variant) (mib : Mib) (hm : mib.WF) (r : Request) (hr 
     · rw [ol.2.1]; simp only [commonLS, mobile_shift _ hm.2.1]; omega
     · rw [ol.2.2.2.2]; rfl
 
-/-! ## 8. Forwarding: the forwarded packet is the received conformant packet with RHL − 1, nothing else touched -/
+/-! ## 8. Forwarding: the forwarded packet is the received conformant packet with RHL − 1 and — GUC / LS reply only — a DE
+position vector refreshed from the location table; nothing else is touched; nothing is sent for a received RHL ≤ 1.
 
-theorem forward_tsb (bh : BasicHeader) (wb : bh.WF) (ch : CommonHeader) (wc : ch.WF) (fc : ch.FlagsConformant)
-    (ht : ch.ht = HeaderType_TSB ∧ ch.hst = TopoBroadcastHST_MULTI_HOP) (ext : TSBExt) (we : ext.WF) (payload : Bytes) :
-    forwardPacket (toBytesBE 4 bh.encodeInt ++ (toBytesBE 8 ch.encodeInt ++ (ext.octets [] ++ payload))) =
-      .ok (toBytesBE 4 (decRhl bh).encodeInt ++ (toBytesBE 8 ch.encodeInt ++ (ext.octets [] ++ payload))) := by
-  apply forward_gen bh wb ch wc fc 28
+`refresh : Option ShortPV` is the forwarder's step 8 of §10.3.8.3 (`de_entry.is_neighbour` and a strictly newer PV in the
+location table → `with_de_pv`): WHICH PV, if any, is the location table's business (C06 `forward_is_copy`: "a DE position
+vector that is the strictly newer PV of a neighbour's location table entry"; C08); here: what goes on the wire for either
+outcome.  Whether the algorithm forwards at all is C06's subject. -/
+
+theorem forward_tsb (refresh : Option ShortPV) (bh : BasicHeader) (wb : bh.WF) (h2 : 2 ≤ bh.rhl) (ch : CommonHeader)
+    (wc : ch.WF) (fc : ch.FlagsConformant) (ht : ch.ht = HeaderType_TSB ∧ ch.hst = TopoBroadcastHST_MULTI_HOP)
+    (ext : TSBExt) (we : ext.WF) (payload : Bytes) :
+    forwardPacket refresh (toBytesBE 4 bh.encodeInt ++ (toBytesBE 8 ch.encodeInt ++ (ext.octets [] ++ payload))) =
+      .ok (some (toBytesBE 4 (decRhl bh).encodeInt ++ (toBytesBE 8 ch.encodeInt ++ (ext.octets [] ++ payload)))) := by
+  apply forward_gen refresh bh wb h2 ch wc fc 28
   · simp [extLen, ht.1, ht.2, HeaderType_TSB, HeaderType_GEOUNICAST, HeaderType_GEOANYCAST, HeaderType_GEOBROADCAST,
       TopoBroadcastHST_MULTI_HOP]
   · simp [TSBExt.octets, toBytesBE_length]
@@ -550,11 +692,12 @@ theorem forward_tsb (bh : BasicHeader) (wb : bh.WF) (ch : CommonHeader) (wc : ch
       TSBExt.octets]
     simp [d, TSBExt.encode_eq ext we, bind, Except.bind]
 
-theorem forward_gbc (bh : BasicHeader) (wb : bh.WF) (ch : CommonHeader) (wc : ch.WF) (fc : ch.FlagsConformant)
-    (ht : ch.ht = HeaderType_GEOBROADCAST ∨ ch.ht = HeaderType_GEOANYCAST) (ext : GBCExt) (we : ext.WF) (payload : Bytes) :
-    forwardPacket (toBytesBE 4 bh.encodeInt ++ (toBytesBE 8 ch.encodeInt ++ (ext.octets [] ++ payload))) =
-      .ok (toBytesBE 4 (decRhl bh).encodeInt ++ (toBytesBE 8 ch.encodeInt ++ (ext.octets [] ++ payload))) := by
-  apply forward_gen bh wb ch wc fc 44
+theorem forward_gbc (refresh : Option ShortPV) (bh : BasicHeader) (wb : bh.WF) (h2 : 2 ≤ bh.rhl) (ch : CommonHeader)
+    (wc : ch.WF) (fc : ch.FlagsConformant) (ht : ch.ht = HeaderType_GEOBROADCAST ∨ ch.ht = HeaderType_GEOANYCAST)
+    (ext : GBCExt) (we : ext.WF) (payload : Bytes) :
+    forwardPacket refresh (toBytesBE 4 bh.encodeInt ++ (toBytesBE 8 ch.encodeInt ++ (ext.octets [] ++ payload))) =
+      .ok (some (toBytesBE 4 (decRhl bh).encodeInt ++ (toBytesBE 8 ch.encodeInt ++ (ext.octets [] ++ payload)))) := by
+  apply forward_gen refresh bh wb h2 ch wc fc 44
   · rcases ht with h | h <;> simp [extLen, h, HeaderType_GEOUNICAST, HeaderType_GEOANYCAST, HeaderType_GEOBROADCAST]
   · simp [GBCExt.octets, toBytesBE_length]
   · have d := GBCExt.decode_encode ext we []
@@ -562,21 +705,36 @@ theorem forward_gbc (bh : BasicHeader) (wb : bh.WF) (ch : CommonHeader) (wc : ch
       simp [reencodeExt, h, HeaderType_GEOUNICAST, HeaderType_GEOANYCAST, HeaderType_GEOBROADCAST, d,
         GBCExt.encode_eq ext we, bind, Except.bind]
 
-theorem forward_guc (bh : BasicHeader) (wb : bh.WF) (ch : CommonHeader) (wc : ch.WF) (fc : ch.FlagsConformant)
-    (ht : ch.ht = HeaderType_GEOUNICAST) (ext : GUCExt) (we : ext.WF) (payload : Bytes) :
-    forwardPacket (toBytesBE 4 bh.encodeInt ++ (toBytesBE 8 ch.encodeInt ++ (ext.octets [] ++ payload))) =
-      .ok (toBytesBE 4 (decRhl bh).encodeInt ++ (toBytesBE 8 ch.encodeInt ++ (ext.octets [] ++ payload))) := by
-  apply forward_gen bh wb ch wc fc 48
+private theorem refreshed_wf (ext : GUCExt) (we : ext.WF) (refresh : Option ShortPV) (hw : ∀ p, refresh = some p → p.WF) :
+    (ext.refreshed refresh).WF := by
+  obtain ⟨w1, w2, w3, w4⟩ := we
+  refine ⟨w1, w2, w3, ?_⟩
+  cases refresh with
+  | none => exact w4
+  | some p => exact hw p rfl
+
+/-- GUC: RHL − 1, and the DE PV is `refresh` if the location table supplied one, else the received DE PV — SN, SO PV,
+payload and every other octet unchanged -/
+theorem forward_guc (refresh : Option ShortPV) (hw : ∀ p, refresh = some p → p.WF) (bh : BasicHeader) (wb : bh.WF)
+    (h2 : 2 ≤ bh.rhl) (ch : CommonHeader) (wc : ch.WF) (fc : ch.FlagsConformant) (ht : ch.ht = HeaderType_GEOUNICAST)
+    (ext : GUCExt) (we : ext.WF) (payload : Bytes) :
+    forwardPacket refresh (toBytesBE 4 bh.encodeInt ++ (toBytesBE 8 ch.encodeInt ++ (ext.octets [] ++ payload))) =
+      .ok (some (toBytesBE 4 (decRhl bh).encodeInt ++ (toBytesBE 8 ch.encodeInt ++
+        (({ ext with dePv := refresh.getD ext.dePv } : GUCExt).octets [] ++ payload)))) := by
+  apply forward_gen refresh bh wb h2 ch wc fc 48
   · simp [extLen, ht]
   · simp [GUCExt.octets, toBytesBE_length]
   · have d := GUCExt.decode_encode ext we []
-    simp [reencodeExt, ht, d, GUCExt.encode_eq ext we, bind, Except.bind]
+    have e := GUCExt.encode_eq _ (refreshed_wf ext we refresh hw)
+    simp only [GUCExt.refreshed] at e
+    simp [reencodeExt, ht, d, GUCExt.refreshed, e, bind, Except.bind]
 
-theorem forward_ls_request (bh : BasicHeader) (wb : bh.WF) (ch : CommonHeader) (wc : ch.WF) (fc : ch.FlagsConformant)
-    (ht : ch.ht = HeaderType_LS ∧ ch.hst = LocationServiceHST_LS_REQUEST) (ext : LSReqExt) (we : ext.WF) (payload : Bytes) :
-    forwardPacket (toBytesBE 4 bh.encodeInt ++ (toBytesBE 8 ch.encodeInt ++ (ext.octets [] ++ payload))) =
-      .ok (toBytesBE 4 (decRhl bh).encodeInt ++ (toBytesBE 8 ch.encodeInt ++ (ext.octets [] ++ payload))) := by
-  apply forward_gen bh wb ch wc fc 36
+theorem forward_ls_request (refresh : Option ShortPV) (bh : BasicHeader) (wb : bh.WF) (h2 : 2 ≤ bh.rhl) (ch : CommonHeader)
+    (wc : ch.WF) (fc : ch.FlagsConformant) (ht : ch.ht = HeaderType_LS ∧ ch.hst = LocationServiceHST_LS_REQUEST)
+    (ext : LSReqExt) (we : ext.WF) (payload : Bytes) :
+    forwardPacket refresh (toBytesBE 4 bh.encodeInt ++ (toBytesBE 8 ch.encodeInt ++ (ext.octets [] ++ payload))) =
+      .ok (some (toBytesBE 4 (decRhl bh).encodeInt ++ (toBytesBE 8 ch.encodeInt ++ (ext.octets [] ++ payload)))) := by
+  apply forward_gen refresh bh wb h2 ch wc fc 36
   · simp [extLen, ht.1, ht.2, HeaderType_LS, HeaderType_TSB, HeaderType_GEOUNICAST, HeaderType_GEOANYCAST,
       HeaderType_GEOBROADCAST, LocationServiceHST_LS_REQUEST]
   · simp [LSReqExt.octets, toBytesBE_length]
@@ -585,24 +743,133 @@ theorem forward_ls_request (bh : BasicHeader) (wb : bh.WF) (ch : CommonHeader) (
     simp [reencodeExt, ht.1, HeaderType_LS, HeaderType_TSB, HeaderType_GEOUNICAST, HeaderType_GEOANYCAST,
       HeaderType_GEOBROADCAST, l, d, LSReqExt.encode_eq ext we, bind, Except.bind]
 
-theorem forward_ls_reply (bh : BasicHeader) (wb : bh.WF) (ch : CommonHeader) (wc : ch.WF) (fc : ch.FlagsConformant)
+/-- LS reply: forwarded like GUC (DE PV refresh included) -/
+theorem forward_ls_reply (refresh : Option ShortPV) (hw : ∀ p, refresh = some p → p.WF) (bh : BasicHeader) (wb : bh.WF)
+    (h2 : 2 ≤ bh.rhl) (ch : CommonHeader) (wc : ch.WF) (fc : ch.FlagsConformant)
     (ht : ch.ht = HeaderType_LS ∧ ch.hst = LocationServiceHST_LS_REPLY) (ext : GUCExt) (we : ext.WF) (payload : Bytes) :
-    forwardPacket (toBytesBE 4 bh.encodeInt ++ (toBytesBE 8 ch.encodeInt ++ (ext.octets [] ++ payload))) =
-      .ok (toBytesBE 4 (decRhl bh).encodeInt ++ (toBytesBE 8 ch.encodeInt ++ (ext.octets [] ++ payload))) := by
-  apply forward_gen bh wb ch wc fc 48
+    forwardPacket refresh (toBytesBE 4 bh.encodeInt ++ (toBytesBE 8 ch.encodeInt ++ (ext.octets [] ++ payload))) =
+      .ok (some (toBytesBE 4 (decRhl bh).encodeInt ++ (toBytesBE 8 ch.encodeInt ++
+        (({ ext with dePv := refresh.getD ext.dePv } : GUCExt).octets [] ++ payload)))) := by
+  apply forward_gen refresh bh wb h2 ch wc fc 48
   · simp [extLen, ht.1, ht.2, HeaderType_LS, HeaderType_TSB, HeaderType_GEOUNICAST, HeaderType_GEOANYCAST,
       HeaderType_GEOBROADCAST, LocationServiceHST_LS_REQUEST, LocationServiceHST_LS_REPLY]
   · simp [GUCExt.octets, toBytesBE_length]
   · have d := GUCExt.decode_encode ext we []
     have l : (ext.octets []).length ≠ 36 := by simp [GUCExt.octets, toBytesBE_length]
+    have e := GUCExt.encode_eq _ (refreshed_wf ext we refresh hw)
+    simp only [GUCExt.refreshed] at e
     simp [reencodeExt, ht.1, HeaderType_LS, HeaderType_TSB, HeaderType_GEOUNICAST, HeaderType_GEOANYCAST,
-      HeaderType_GEOBROADCAST, l, d, GUCExt.encode_eq ext we, bind, Except.bind]
+      HeaderType_GEOBROADCAST, l, d, GUCExt.refreshed, e, bind, Except.bind]
 
-/-- the only octet that changes is octet 3 (RHL), to `(RHL − 1) mod 256` -/
-theorem forward_only_rhl (bh : BasicHeader) :
-    (decRhl bh).fields = basicValuesRaw bh ((bh.rhl + 255) % 256) := by
-  simp [decRhl, BasicHeader.fields, basicValuesRaw]
+/-- a refresh changes exactly the 20 DE PV octets (28..47 of the extended header): SN, reserved and SO PV octets stay -/
+theorem refresh_touches_only_de_pv (ext : GUCExt) (pv : ShortPV) :
+    slice (({ ext with dePv := pv } : GUCExt).octets []) 0 28 = slice (ext.octets []) 0 28 := by
+  have key : ∀ d : Bytes, slice (toBytesBE 2 ext.sn ++ (toBytesBE 2 ext.reserved ++ (toBytesBE 24 ext.soPv.encodeInt ++ d))) 0 28 =
+      toBytesBE 2 ext.sn ++ toBytesBE 2 ext.reserved ++ toBytesBE 24 ext.soPv.encodeInt := by
+    intro d
+    rw [← List.append_assoc, ← List.append_assoc]
+    exact slice_prefix _ _ _ (by simp [toBytesBE_length])
+  simp only [GUCExt.octets, key]
 
+/-- **hop limit exhausted**: a conformant packet received with RHL 0 or 1 is not put on the wire again, whatever its
+type (TSB shown; the other types by the same lemma `forward_gen_exhausted`) — no forwarded packet with RHL 0, and no
+wrap of RHL 0 to 255 -/
+theorem forward_exhausted_tsb (refresh : Option ShortPV) (bh : BasicHeader) (wb : bh.WF) (h1 : bh.rhl ≤ 1) (ch : CommonHeader)
+    (wc : ch.WF) (fc : ch.FlagsConformant) (ht : ch.ht = HeaderType_TSB ∧ ch.hst = TopoBroadcastHST_MULTI_HOP)
+    (ext : TSBExt) (we : ext.WF) (payload : Bytes) :
+    forwardPacket refresh (toBytesBE 4 bh.encodeInt ++ (toBytesBE 8 ch.encodeInt ++ (ext.octets [] ++ payload))) = .ok none := by
+  apply forward_gen_exhausted refresh bh wb h1 ch wc fc 28 (extb := ext.octets []) (extb' := ext.octets [])
+  · simp [extLen, ht.1, ht.2, HeaderType_TSB, HeaderType_GEOUNICAST, HeaderType_GEOANYCAST, HeaderType_GEOBROADCAST,
+      TopoBroadcastHST_MULTI_HOP]
+  · simp [TSBExt.octets, toBytesBE_length]
+  · have d := TSBExt.decode_encode ext we []
+    simp only [List.append_nil] at d
+    simp only [reencodeExt, ht.1, HeaderType_TSB, HeaderType_GEOUNICAST, HeaderType_GEOANYCAST, HeaderType_GEOBROADCAST,
+      TSBExt.octets]
+    simp [d, TSBExt.encode_eq ext we, bind, Except.bind]
+
+theorem forward_exhausted_gbc (refresh : Option ShortPV) (bh : BasicHeader) (wb : bh.WF) (h1 : bh.rhl ≤ 1) (ch : CommonHeader)
+    (wc : ch.WF) (fc : ch.FlagsConformant) (ht : ch.ht = HeaderType_GEOBROADCAST ∨ ch.ht = HeaderType_GEOANYCAST)
+    (ext : GBCExt) (we : ext.WF) (payload : Bytes) :
+    forwardPacket refresh (toBytesBE 4 bh.encodeInt ++ (toBytesBE 8 ch.encodeInt ++ (ext.octets [] ++ payload))) = .ok none := by
+  apply forward_gen_exhausted refresh bh wb h1 ch wc fc 44 (extb := ext.octets []) (extb' := ext.octets [])
+  · rcases ht with h | h <;> simp [extLen, h, HeaderType_GEOUNICAST, HeaderType_GEOANYCAST, HeaderType_GEOBROADCAST]
+  · simp [GBCExt.octets, toBytesBE_length]
+  · have d := GBCExt.decode_encode ext we []
+    rcases ht with h | h <;>
+      simp [reencodeExt, h, HeaderType_GEOUNICAST, HeaderType_GEOANYCAST, HeaderType_GEOBROADCAST, d,
+        GBCExt.encode_eq ext we, bind, Except.bind]
+
+theorem forward_exhausted_guc (refresh : Option ShortPV) (hw : ∀ p, refresh = some p → p.WF) (bh : BasicHeader) (wb : bh.WF)
+    (h1 : bh.rhl ≤ 1) (ch : CommonHeader) (wc : ch.WF) (fc : ch.FlagsConformant) (ht : ch.ht = HeaderType_GEOUNICAST)
+    (ext : GUCExt) (we : ext.WF) (payload : Bytes) :
+    forwardPacket refresh (toBytesBE 4 bh.encodeInt ++ (toBytesBE 8 ch.encodeInt ++ (ext.octets [] ++ payload))) = .ok none := by
+  apply forward_gen_exhausted refresh bh wb h1 ch wc fc 48 (extb := ext.octets [])
+    (extb' := ({ ext with dePv := refresh.getD ext.dePv } : GUCExt).octets [])
+  · simp [extLen, ht]
+  · simp [GUCExt.octets, toBytesBE_length]
+  · have d := GUCExt.decode_encode ext we []
+    have e := GUCExt.encode_eq _ (refreshed_wf ext we refresh hw)
+    simp only [GUCExt.refreshed] at e
+    simp [reencodeExt, ht, d, GUCExt.refreshed, e, bind, Except.bind]
+
+/-! ### Forwarding of a SECURED packet (basic-header NH = 2) — known finding C02-KF3
+
+The basic header is outside the signed part of a secured GeoNetworking packet precisely so that forwarders can decrement
+RHL; the secured message behind it has to go out as received.  `forwardSecured true` (repaired) does that;
+`forwardSecured false` (the code as it is) re-assembles an UNSECURED packet from the verified plain message. -/
+
+private theorem unsec_wf (bh : BasicHeader) (wb : bh.WF) : ({ bh with nh := BasicNH_COMMON_HEADER } : BasicHeader).WF := by
+  obtain ⟨h1, _, h3, h4, h5, h6⟩ := wb
+  exact ⟨h1, by simp [Spec.basicNH, BasicNH_COMMON_HEADER], h3, h4, h5, h6⟩
+
+/-- **repaired variant**: a secured GBC/GAC packet (DENM) with RHL ≥ 2 whose verified plain message is conformant is
+forwarded as the received octets with RHL − 1 — every octet of the security envelope `env` untouched -/
+theorem forward_secured_gbc (refresh : Option ShortPV) (bh : BasicHeader) (wb : bh.WF) (h2 : 2 ≤ bh.rhl) (ch : CommonHeader)
+    (wc : ch.WF) (fc : ch.FlagsConformant) (ht : ch.ht = HeaderType_GEOBROADCAST ∨ ch.ht = HeaderType_GEOANYCAST)
+    (ext : GBCExt) (we : ext.WF) (payload env : Bytes) :
+    forwardSecured true refresh (toBytesBE 4 bh.encodeInt ++ env) (toBytesBE 8 ch.encodeInt ++ (ext.octets [] ++ payload)) =
+      .ok (some (toBytesBE 4 (decRhl bh).encodeInt ++ env)) :=
+  (forwardSecured_eq refresh bh wb env _ _
+    (forward_gbc refresh _ (unsec_wf bh wb) h2 ch wc fc ht ext we payload)).1
+
+/-- **the code as it is (witness, for EVERY such packet)**: the forwarded packet is assembled from the plain message alone
+— `env` does not occur in it — and leaves with NH = 1 (first octet `version·16 + 1`) although it arrived with NH = 2
+(`version·16 + 2`): signature, certificate/digest and generation time are gone, so a receiver with itsGnSecurity ENABLED
+discards the forwarded copy and one with security disabled accepts an unauthenticated one -/
+theorem forward_secured_gbc_witness (refresh : Option ShortPV) (bh : BasicHeader) (wb : bh.WF)
+    (hsec : bh.nh = BasicNH_SECURED_PACKET) (h2 : 2 ≤ bh.rhl) (ch : CommonHeader) (wc : ch.WF) (fc : ch.FlagsConformant)
+    (ht : ch.ht = HeaderType_GEOBROADCAST ∨ ch.ht = HeaderType_GEOANYCAST) (ext : GBCExt) (we : ext.WF) (payload env : Bytes) :
+    ∃ out, forwardSecured false refresh (toBytesBE 4 bh.encodeInt ++ env) (toBytesBE 8 ch.encodeInt ++ (ext.octets [] ++ payload))
+        = .ok (some out) ∧
+      out = toBytesBE 4 (decRhl { bh with nh := BasicNH_COMMON_HEADER }).encodeInt ++
+              (toBytesBE 8 ch.encodeInt ++ (ext.octets [] ++ payload)) ∧
+      out.getD 0 0 = bh.version * 16 + 1 ∧ (toBytesBE 4 bh.encodeInt ++ env).getD 0 0 = bh.version * 16 + 2 := by
+  refine ⟨_, (forwardSecured_eq refresh bh wb env _ _
+    (forward_gbc refresh _ (unsec_wf bh wb) h2 ch wc fc ht ext we payload)).2, rfl, ?_, ?_⟩
+  · have o := (BasicHeader.octets_at _ (decRhl_wf _ (unsec_wf bh wb))).1
+    simp only [List.getD_eq_getElem?_getD] at o ⊢
+    rw [List.getElem?_append_left (by simp [toBytesBE_length]), o]
+    simp [decRhl, BasicNH_COMMON_HEADER]
+  · have o := (BasicHeader.octets_at _ wb).1
+    simp only [List.getD_eq_getElem?_getD] at o ⊢
+    rw [List.getElem?_append_left (by simp [toBytesBE_length]), o, hsec]
+    simp [BasicNH_SECURED_PACKET]
+
+/-- the only octet of the basic header that changes is octet 3 (RHL); behind the forwarders' guard (received RHL ≥ 2) it
+is a true decrement: RHL − 1 ≥ 1, no wrap — and the forwarded basic header is the standard's octets for these values -/
+theorem forward_only_rhl (bh : BasicHeader) (wb : bh.WF) (h2 : 2 ≤ bh.rhl) :
+    (decRhl bh).fields = basicValuesRaw bh (bh.rhl - 1) ∧ 1 ≤ (decRhl bh).rhl ∧
+    toBytesBE 4 (decRhl bh).encodeInt = octets basicHeader (basicValuesRaw bh (bh.rhl - 1)) := by
+  obtain ⟨r1, r2⟩ := decRhl_rhl bh wb h2
+  have hr : (decRhl bh).rhl = bh.rhl - 1 := by omega
+  have hf : (decRhl bh).fields = basicValuesRaw bh (bh.rhl - 1) := by
+    simp only [BasicHeader.fields, basicValuesRaw, hr]; simp [decRhl]
+  refine ⟨hf, r2, ?_⟩
+  have e := BasicHeader.encode_eq _ (decRhl_wf bh wb)
+  rw [BasicHeader.encode, toBytes?_ok (BasicHeader.encodeInt_lt _ (decRhl_wf bh wb))] at e
+  injection e with e
+  rw [e, hf]
 
 /-! ## 9. Reading the emitted octets with the standard's own `unpack` gives back the header's field values -/
 
@@ -635,5 +902,18 @@ example : Mib.WF ⟨1, 1, 10, 60, 255⟩ ∧ Request.WF ⟨2, 5, 0, ⟨false, fa
 example : CommonHeader.WF ⟨2, 0, 5, 0, ⟨true, false, 63⟩, 128, 65535, 255⟩ ∧
     CommonHeader.FlagsConformant ⟨2, 0, 5, 0, ⟨true, false, 63⟩, 128, 65535, 255⟩ := by
   simp [CommonHeader.WF, CommonHeader.FlagsConformant, TrafficClass.WF, Spec.commonNH, Spec.headerTypes, Spec.subTypes]
+
+/-- forwarding hypotheses: a basic header with RHL ≥ 2 (and one with NH = 2, secured), a refresh PV that is well formed -/
+example : BasicHeader.WF ⟨1, 1, 0, ⟨26, 1⟩, 2⟩ ∧ (2 : Nat) ≤ (⟨1, 1, 0, ⟨26, 1⟩, 2⟩ : BasicHeader).rhl ∧
+    BasicHeader.WF ⟨1, 2, 0, ⟨26, 1⟩, 10⟩ ∧ (⟨1, 2, 0, ⟨26, 1⟩, 10⟩ : BasicHeader).nh = BasicNH_SECURED_PACKET := by
+  simp [BasicHeader.WF, Spec.basicNH, BasicNH_SECURED_PACKET]
+example : ∀ p, (some (⟨⟨0, 5, 7⟩, 1000, -1, -1⟩ : ShortPV)) = some p → p.WF := by
+  intro p h; cases h; simp [ShortPV.WF, GNAddr.WF, inS32, Spec.stationTypes]
+/-- and one with RHL ≤ 1 for the `forward_exhausted_*` statements -/
+example : BasicHeader.WF ⟨1, 1, 0, ⟨26, 1⟩, 0⟩ ∧ (⟨1, 1, 0, ⟨26, 1⟩, 0⟩ : BasicHeader).rhl ≤ 1 := by
+  simp [BasicHeader.WF, Spec.basicNH]
+/-- the LT octet demanded for the default lifetime of 60 s exists (octet 0x19 = 6 × 10 s) -/
+example : LTSpec.IsLifetimeOctet (LTSpec.lifetimeMs none 60) (LT.setMillis true 60000).encode ∧ (LT.setMillis true 60000).encode = 26 :=
+  ⟨LTLemmas.written_octet_meets_spec_partial 60000 (by decide), by decide⟩
 
 end Props.C02
